@@ -25,7 +25,7 @@ ASSUMPTIONS = ['the byte stream is modelled in memory (fragment boundaries are e
                'deadlines are virtual seconds: connect_timeout + 2 x peer_timeout for the client, idle_timeout + transfer_timeout for the server',
                'an exception raised inside data_received closes the connection (asyncio semantics) and is not itself a violation',
                'a header followed by the complete correct bytes plus excess bytes IS a complete correct copy (the client caps at the announced length)']
-REQUIRED_HITS = ['X1.checked', 'X2.honest_transfer', 'X2.sequential_on_one_connection', 'X2.header_alone', 'X2.one_byte_fragments',
+REQUIRED_HITS = ['X5.race_checked', 'X1.checked', 'X2.honest_transfer', 'X2.sequential_on_one_connection', 'X2.header_alone', 'X2.one_byte_fragments',
                  'X2.header_glued', 'X2.big_blob', 'X2.sd_blob', 'X3.client_liar_checked', 'X3.server_hostile_client_checked', 'X4.wire_checked',
                  'X4.not_held_request', 'X5.concurrent_honest_ok', 'X6.liar_then_honest', 'liar.wrong_hash', 'liar.wrong_length_unknown',
                  'liar.wrong_length_known', 'liar.flip', 'liar.short_stall', 'liar.short_close', 'liar.excess', 'liar.malformed_json',
@@ -62,8 +62,10 @@ def gen_cases(rng, tier, shard, nshards):
         [{'fam': 'liar', 'seed': rng.getrandbits(48), 'liar': LIARS[(i + shard) % len(LIARS)], 'known': (i // len(LIARS)) % 2 == 0} for i in range(n_l)],
         [{'fam': 'hostile_client', 'seed': rng.getrandbits(48), 'kind': HOSTILE_CLIENT[(i + shard) % len(HOSTILE_CLIENT)]} for i in range(n_c)],
     ]
+    fams.append([{'fam': 'race', 'seed': rng.getrandbits(48), 'liars': [LIARS[(i * 5 + shard + j) % len(LIARS)] for j in range(rng.choice([1, 2]))],
+                  'known': i % 2 == 0} for i in range(10 if q else 300)])
     while any(fams):
-        for f, w in zip(fams, (1, 4, 1)):
+        for f, w in zip(fams, (1, 4, 1, 1)):
             for _ in range(w):
                 if f:
                     yield f.pop(0)
@@ -406,6 +408,8 @@ async def _liar(rec, case, loop):
         net.listen('10.0.0.66', 3333, lambda: Liar(loop, r, kind, h, content, other))
         net.listen('10.0.0.1', 3333, lambda: BlobServerProtocol(loop, sbm, 'bQEaw42GXsgCAGio1nxFncJSyRmnztSCjP', IDLE, XFER))
         style = r.choice(['all', 'all', 'bytes', 'mtu', 'rand', 'first:30', 'first:200']) if len(content) < 20000 else r.choice(['all', 'mtu', 'rand'])
+        if kind == 'huge_header':
+            style = r.choice(['all', '64k', 'mtu'])       # a 1 MiB flood in 1-byte fragments is a million quadratic buffer appends: CPU only
         net.plan_factory = lambda d: make_plan(r, style if d == 's2c' else r.choice(['all', 'rand']))
         hit = 'liar.' + ({'wrong_length_shorter': 'wrong_length', 'wrong_length_longer': 'wrong_length', 'wrong_length_zero': 'wrong_length',
                           'wrong_length_negative': 'wrong_length', 'wrong_length_huge': 'wrong_length',
@@ -615,6 +619,94 @@ async def _hostile_client(rec, case, loop):
         shutil.rmtree(base, ignore_errors=True)
 
 
+# ------------------------------------------------------------------------------ arrangement (iv): the real BlobDownloader, liars and one honest peer
+async def _race(rec, case, loop):
+    """the real BlobDownloader races several peers for one blob: 1-2 scripted liars and one honest server.  Whatever the liars do and
+    in whatever order the peers are tried, the blob must end verified with exactly the right bytes within a bounded virtual time."""
+    boot.import_lbry()
+    from lbry.blob_exchange.server import BlobServerProtocol
+    from lbry.blob_exchange.downloader import BlobDownloader
+    from lbry.dht.peer import make_kademlia_peer
+    r = random.Random(case['seed'])
+    base = tempfile.mkdtemp(dir=_TMP['dir'])
+    net = memnet.Net(loop)
+    net.install()
+    try:
+        sbm, sst, sdir = await make_manager(loop, base, 'server')
+        cbm, cst, cdir = await make_manager(loop, base, 'client')
+        cls = r.choice(['tiny', 'small', 'mid', 'sd', 'jsonlike'])
+        content = blob_content(r, cls)
+        other = blob_content(r, 'small')
+        h = await add_blob(sbm, content)
+        peers = []
+        for i, kind in enumerate(case['liars']):
+            addr = f'5.9.{i + 1}.66'
+            # each liar goes away after a few connections: the statement promises no lasting poisoning and that others are still
+            # served; it does not promise progress while a faster lying peer keeps winning every race for an unknown-length blob
+            # (observed: the honest response is refused as "unexpected length" against the liar's claim each round - logged)
+            budget = {'n': r.choice([1, 2, 4])}
+
+            def liar_factory(kind=kind, addr=addr, budget=budget):
+                budget['n'] -= 1
+                if budget['n'] <= 0:
+                    net.refuse.add((addr, 3333))
+                return Liar(loop, r, kind, h, content, other)
+            net.listen(addr, 3333, liar_factory)
+            peers.append(make_kademlia_peer(hashlib.sha384(b'liar%d' % i).digest(), addr, tcp_port=3333))
+            rec.hit('race.liar.' + ('wrong_length' if kind.startswith('wrong_length') else kind))
+        net.listen('5.9.0.1', 3333, lambda: BlobServerProtocol(loop, sbm, 'bQEaw42GXsgCAGio1nxFncJSyRmnztSCjP', IDLE, XFER))
+        peers.append(make_kademlia_peer(hashlib.sha384(b'honest').digest(), '5.9.0.1', tcp_port=3333))
+        r.shuffle(peers)
+        style = r.choice(['all', 'mtu', 'rand', 'first:30']) if len(content) < 20000 else r.choice(['all', 'mtu'])
+        base_plan = {d: make_plan(r, style if d == 's2c' else 'all') for d in ('s2c', 'c2s')}
+        # a little latency everywhere: a peer whose request ends in a cancellation is retried at once by the downloader (it is not
+        # marked as failed); with zero latency that retry loop would spin at one virtual instant and starve the clock
+        net.plan_factory = lambda d: (lambda avail, _p=base_plan[d]: (_p(avail)[0], 0.002))
+        net.connect_delay = 0.02
+        cconf = cbm.config
+        cconf.peer_connect_timeout, cconf.blob_download_timeout = CT, PT
+        pq = asyncio.Queue()
+        # peers trickle in: sometimes the liars first, the honest peer a little later
+        if r.random() < 0.5:
+            pq.put_nowait(list(peers))
+        else:
+            pq.put_nowait(peers[:1])
+            loop.call_later(r.choice([0.5, 2.0, 6.0]), pq.put_nowait, peers[1:])
+        dl = BlobDownloader(loop, cconf, cbm, pq)
+        t0 = loop.time()
+        bound = 40 * (CT + 2 * PT)
+        try:
+            blob = await asyncio.wait_for(dl.download_blob(h, len(content) if case['known'] else None), bound)
+            ok = blob.get_is_verified()
+        except asyncio.TimeoutError:
+            blob, ok = cbm.get_blob(h), False
+        except Exception as e:  # noqa
+            rec.violation(f'C10/X5/downloader-raised/{type(e).__name__}', f'BlobDownloader.download_blob raised {e!r} with liars {case["liars"]}', {'liars': case['liars']})
+            return
+        dt = loop.time() - t0
+        dl.close()
+        rec.hit('X5.race_checked')
+        liars = '+'.join(sorted({('wrong_length' if k.startswith('wrong_length') else k) for k in case['liars']}))
+        if not ok:
+            rec.violation(f'C10/X5/honest-peer-available-but-download-never-completed/{liars}',
+                          f'one honest server holds the {cls} blob ({len(content)} bytes, client knew length: {case["known"]}) next to liars {case["liars"]}, '
+                          f'but BlobDownloader had not finished after {bound:.0f} virtual s', {'liars': case['liars'], 'class': cls, 'known': case['known'],
+                                                                                            'blob_length_now': blob.length})
+        else:
+            with open(os.path.join(cdir, h), 'rb') as f:
+                if f.read() != content:
+                    rec.violation(f'C10/X1/verified-blob-bytes-differ/race/{liars}', 'downloader finished with wrong bytes', {'liars': case['liars']})
+        rec.case(['race', sorted(case['liars']), cls, case['known'], style],
+                 sample={'arrangement': 'race', 'liars': case['liars'], 'blob': cls, 'length': len(content), 'verified': ok,
+                         'virtual_seconds': round(dt, 2), 'connections': len(net.connections)})
+        sbm.stop()
+        cbm.stop()
+        await sst.close()
+        await cst.close()
+    finally:
+        shutil.rmtree(base, ignore_errors=True)
+
+
 def execute(rec, case):
-    fam = {'honest': _honest, 'liar': _liar, 'hostile_client': _hostile_client}[case['fam']]
+    fam = {'honest': _honest, 'liar': _liar, 'hostile_client': _hostile_client, 'race': _race}[case['fam']]
     vclock.run(lambda loop: fam(rec, case, loop), wall_timeout=300)
